@@ -59,6 +59,41 @@ theorem xnor_sound (v : Val) (hv : v.ok) (l : List B) :
     truth v (xnorE l) = !l.foldl (fun acc b => acc ^^ truth v b) false := by
   rw [xnor_sound_par v hv, parT_eq_foldl]
 
+/-! ### laws that follow from the value theorems -/
+
+/-- the value of `logical_and` / `logical_or` does not depend on the order of the arguments -/
+theorem and_or_perm_truth (v : Val) (hv : v.ok) (isOr : Bool) (s s' : List B) (h : s.Perm s') :
+    truth v (andOr isOr s) = truth v (andOr isOr s') := by
+  rw [and_or_sound v hv, and_or_sound v hv]
+  cases isOr
+  · simp only [Bool.false_eq_true, if_false]; exact h.all_eq
+  · simp only [if_true]; exact h.any_eq
+
+/-- … nor on repetitions -/
+theorem and_or_dup_truth (v : Val) (hv : v.ok) (isOr : Bool) (s : List B) :
+    truth v (andOr isOr (s ++ s)) = truth v (andOr isOr s) := by
+  rw [and_or_sound v hv, and_or_sound v hv]
+  cases isOr <;> simp
+
+/-- De Morgan: `Nor(s)` has the value of `And(Not s…)` -/
+theorem nor_de_morgan (v : Val) (hv : v.ok) (s : List B) :
+    truth v (norE s) = truth v (andOr false (s.map notB)) := by
+  rw [nor_sound v hv, and_or_sound v hv]
+  simp only [Bool.false_eq_true, if_false, List.all_map]
+  induction s with
+  | nil => rfl
+  | cons b t ih =>
+    simp only [List.any_cons, List.all_cons, Function.comp, Bool.not_or, not_sound v hv b]
+    rw [ih]
+
+/-- `Xnor` is the negation of `Xor` on the same arguments -/
+theorem xnor_not_xor (v : Val) (hv : v.ok) (l : List B) : truth v (xnorE l) = !truth v (xorE l) := by
+  rw [xnor_sound v hv, xor_sound v hv]
+
+/-- double negation keeps the value, for every object (canonical or not) -/
+theorem not_not_truth (v : Val) (hv : v.ok) (b : B) : truth v (notB (notB b)) = truth v b := by
+  rw [not_sound v hv, not_sound v hv, Bool.not_not]
+
 /-- the three outcomes of `piecewise()` -/
 theorem piecewise_cases (vec : List (Nat × B)) :
     (pwPrune vec [] = [] ∧ piecewise vec = .error .domain) ∨
